@@ -211,6 +211,22 @@ CHECKS["C19"] = dict(
     technique="symbolic execution of clang's LLVM IR of the generated scheduler: 1-step induction from arbitrary state + k-step BMC, SMT vs. reference automaton",
 )
 
+CHECKS["C03"] = dict(
+    engine="llsym",
+    category="model_checking",
+    text="For every schema of a family the real fcp_cpp generator's headers are compiled as C++17 (clang++ -O1 to IR, "
+         "g++ -fsyntax-only) together with a generated harness TU that only builds typed values and calls the generated "
+         "Encode/Decode; llsym interprets that IR (through libstdc++'s vector/optional/string/array code) with symbolic "
+         "field values: Encode bytes == canonical bytes for all values, Decode of an arbitrary buffer of the canonical "
+         "length == reference decoding for fixed-size shapes (canonical images of all values otherwise); "
+         "_to_highest_power_of_two runs under pysym with symbolic N in 1..64 (carrier in {8,16,32,64}, >= N).",
+    design_ref="DESIGN.md §4 C03",
+    note="Outside the claim: the JSON entry points (FromJson/DecodeJson/EncodeJson, StaticSchema), rpc/service headers "
+         "(compile-only as part of generation), Endianess::Big. Natives: operator new/delete, basic_string::_M_create, "
+         "memcmp/strlen, throw helpers. Counterexamples are recompiled natively with clang++ and g++ and run.",
+    technique="symbolic execution of clang's LLVM IR of the generated C++ typed codec (own interpreter) + SMT validity vs. canonical bytes",
+)
+
 NOT_APPLICABLE = {
     "C07": "Subject is the Lark Earley parser with a dynamic regex lexer over all texts: it cannot be executed "
            "symbolically by CrossHair or by the proxy engine within reach (DESIGN.md §6); grammar-based generation would "
